@@ -4,9 +4,12 @@
 // (SessionManager.runBridgeLifecycle) between scripted endpoints.
 //
 // copy   lim <L|-> rd <n> (<hex> <n|t|f> <canc>)* wr <m> (<accept> <err>)*
-//        ## del <hex> total <n> counter <n>
+//
+//	## del <hex> total <n> counter <n>
+//
 // bridge lim <L|-> src <n> (<hex> <n|t|f> <after>)* tgt <n> (…)* sw <m> (<accept> <err>)* tw <m> (…)*
-//        ## tt <hex> ts <hex> s2teof <b> t2seof <b> ret <b> sc <b> tc <b> rem <b> sent <n> recv <n>
+//
+//	## tt <hex> ts <hex> s2teof <b> t2seof <b> ret <b> sc <b> tc <b> rem <b> sent <n> recv <n>
 package main
 
 import (
@@ -24,6 +27,8 @@ import (
 	"sync/atomic"
 	"time"
 
+	"tunnox-core/internal/cloud/models"
+	"tunnox-core/internal/cloud/stats"
 	"tunnox-core/internal/core/idgen"
 	"tunnox-core/internal/core/storage"
 	"tunnox-core/internal/protocol/session"
@@ -150,10 +155,16 @@ type scriptConn struct {
 	closed      bool
 	eofReturned bool
 	name        string
+	// re-attachment runs: the Read that would serve event `pauseAt` (or the end of the script)
+	// waits until the harness releases it; `holdAtEnd`: the end of the script never arrives
+	pauseAt   int
+	atPause   bool
+	released  bool
+	holdAtEnd bool
 }
 
 func newScriptConn(name string, reads []readEv, writes []writeEv) *scriptConn {
-	c := &scriptConn{reads: reads, writes: writes, name: name}
+	c := &scriptConn{reads: reads, writes: writes, name: name, pauseAt: -1}
 	c.cond = sync.NewCond(&c.mu)
 	return c
 }
@@ -165,7 +176,17 @@ func (c *scriptConn) Read(p []byte) (int, error) {
 		if c.closed {
 			return 0, net.ErrClosed
 		}
+		if c.ri == c.pauseAt && !c.released {
+			c.atPause = true
+			c.cond.Broadcast()
+			c.cond.Wait()
+			continue
+		}
 		if c.ri >= len(c.reads) {
+			if c.holdAtEnd {
+				c.cond.Wait()
+				continue
+			}
 			c.eofReturned = true
 			return 0, io.EOF
 		}
@@ -257,7 +278,7 @@ func b2s(b bool) string {
 	return "0"
 }
 
-func runBridge(lim string, src, tgt []readEv, sw, tw []writeEv) string {
+func runBridge(lim string, src, tgt []readEv, sw, tw []writeEv, stall bool) string {
 	res := make(chan string, 1)
 	go func() {
 		defer func() {
@@ -275,9 +296,41 @@ func runBridge(lim string, src, tgt []readEv, sw, tw []writeEv) string {
 		sc := newScriptConn("src", src, sw)
 		tc := newScriptConn("tgt", tgt, tw)
 		id := fmt.Sprintf("verif-tunnel-%d", bridgeSeq.Add(1))
-		br := sm.VerifStartBridge(id, "", sc, limitOf(lim))
+		var br *session.TunnelBridge
+		var cc *stallCC
+		if stall {
+			cc = &stallCC{release: make(chan struct{})}
+			br = sm.VerifStartBridgeCC(id, "verif-mapping", sc, limitOf(lim), cc)
+		} else {
+			br = sm.VerifStartBridge(id, "", sc, limitOf(lim))
+		}
 		br.SetTargetConnection(&tconn{c: tc})
-		deadline := time.Now().Add(5 * time.Second)
+		cds, stalled := "1", "0"
+		if stall {
+			// wait until the final traffic report is inside the (stalled) backend, or the bridge is gone
+			// without a report (no bytes moved)
+			for d := time.Now().Add(20 * time.Second); time.Now().Before(d) && cc.entered.Load() == 0 && sm.VerifHasBridge(id); {
+				time.Sleep(200 * time.Microsecond)
+			}
+			if cc.entered.Load() > 0 {
+				stalled = "1"
+				cds = "0"
+				for d := time.Now().Add(3 * time.Second); time.Now().Before(d); time.Sleep(200 * time.Microsecond) {
+					sc.mu.Lock()
+					a := sc.closed
+					sc.mu.Unlock()
+					tc.mu.Lock()
+					b := tc.closed
+					tc.mu.Unlock()
+					if a && b {
+						cds = "1"
+						break
+					}
+				}
+			}
+			close(cc.release)
+		}
+		deadline := time.Now().Add(20 * time.Second)
 		returned := false
 		for time.Now().Before(deadline) {
 			if !sm.VerifHasBridge(id) {
@@ -294,6 +347,9 @@ func runBridge(lim string, src, tgt []readEv, sw, tw []writeEv) string {
 			br.GetBytesSent(), br.GetBytesReceived())
 		tc.mu.Unlock()
 		sc.mu.Unlock()
+		if stall {
+			o += " cds " + cds + " stalled " + stalled
+		}
 		res <- o
 	}()
 	select {
@@ -302,6 +358,22 @@ func runBridge(lim string, src, tgt []readEv, sw, tw []writeEv) string {
 	case <-time.After(40 * time.Second):
 		return "timeout"
 	}
+}
+
+// stallCC is a statistics backend that does not answer until released.
+type stallCC struct {
+	entered atomic.Int64
+	release chan struct{}
+}
+
+func (c *stallCC) GetPortMapping(string) (*models.PortMapping, error) {
+	c.entered.Add(1)
+	<-c.release
+	return &models.PortMapping{}, nil
+}
+func (c *stallCC) UpdatePortMappingStats(string, *stats.TrafficStats) error { return nil }
+func (c *stallCC) GetClientPortMappings(int64) ([]*models.PortMapping, error) {
+	return nil, nil
 }
 
 // ---- case strings
@@ -382,12 +454,14 @@ func execCase(out *vc.Out, caseStr string) {
 			}
 		}
 		out.Case(caseStr, obs, key)
-	case "bridge":
+	case "reattach", "reattachfree":
+		execReattach(out, caseStr, toks)
+	case "bridge", "bridgestall":
 		src, i := parseReads(toks, 3, true)
 		tgt, i := parseReads(toks, i, true)
 		sw, i := parseWrites(toks, i)
 		tw, _ := parseWrites(toks, i)
-		obs := runBridge(toks[2], src, tgt, sw, tw)
+		obs := runBridge(toks[2], src, tgt, sw, tw, toks[0] == "bridgestall")
 		key := caseStr
 		if len(key) > 200 {
 			key = key[:200] + strconv.Itoa(len(caseStr))
@@ -522,6 +596,16 @@ func gen(out *vc.Out, r *vc.Rand, thorough bool) {
 		}
 		out.Count("bridge:back-pressure")
 	}
+	// --- bridge with a LOW bandwidth limit and traffic in both directions at once: the two copy goroutines share
+	// one limiter, so a slice of one direction queues behind the other direction's reservation (several seconds of
+	// real waiting); nothing may be dropped and nobody may be closed because of the limit
+	{
+		big := func() []byte { return genData(r, 32768) }
+		src := []readEv{{data: big(), err: "n"}, {data: big(), err: "n"}, {data: nil, err: "n", after: 65536}}
+		tgt := []readEv{{data: big(), err: "n"}, {data: big(), err: "n"}, {data: nil, err: "n", after: 1 << 40}}
+		execCase(out, "bridge lim 16000 "+fmtReads("src", src, true)+" "+fmtReads("tgt", tgt, true)+" "+fmtWrites("sw", nil)+" "+fmtWrites("tw", nil))
+		out.Count("bridge:low-limit-both-directions")
+	}
 	// --- bridge: both directions concurrently, real lifecycle
 	brounds := 60
 	if thorough {
@@ -567,7 +651,12 @@ func gen(out *vc.Out, r *vc.Rand, thorough bool) {
 			sw = genWrites(r, out, nt, true)
 			tw = genWrites(r, out, ns, true)
 		}
-		execCase(out, "bridge lim "+lim+" "+fmtReads("src", src, true)+" "+fmtReads("tgt", tgt, true)+" "+fmtWrites("sw", sw)+" "+fmtWrites("tw", tw))
+		kind := "bridge"
+		if r.Intn(6) == 0 { // the statistics backend stalls during the final traffic report
+			kind = "bridgestall"
+			out.Count("bridge:stats-backend-stalled")
+		}
+		execCase(out, kind+" lim "+lim+" "+fmtReads("src", src, true)+" "+fmtReads("tgt", tgt, true)+" "+fmtWrites("sw", sw)+" "+fmtWrites("tw", tw))
 	}
 }
 
@@ -576,6 +665,7 @@ func main() {
 	seed := flag.Uint64("seed", 1, "")
 	stats := flag.String("stats", "", "")
 	noGen := flag.Bool("nogen", false, "")
+	only := flag.String("only", "", "reattach: generate re-attachment runs only")
 	flag.Parse()
 	out := vc.NewOut()
 	for _, f := range flag.Args() {
@@ -597,7 +687,10 @@ func main() {
 		}
 	}
 	if !*noGen {
-		gen(out, vc.NewRand(*seed), *tier == "thorough")
+		if *only == "" {
+			gen(out, vc.NewRand(*seed), *tier == "thorough")
+		}
+		genReattach(out, vc.NewRand(*seed+77), *tier == "thorough")
 	}
 	out.Finish(*stats, nil)
 }
